@@ -552,7 +552,12 @@ def c17_measure(ctx):
     plans = []
     for kind, argv in (("nodelim", ["-M", "1", "-d", "-", "-f", "1"]), ("delims", ["-M", "1", "-d", "-", "-f", "2"]),
                        ("tail", ["-M", "1", "-d", "-", "-f", "1"]), ("head", ["-M", "1", "-d", "-", "-f", "2"]),
-                       ("delims", ["-M", "1", "-d", "-", "-f", "3:", "-r", "+"])):
+                       ("delims", ["-M", "1", "-d", "-", "-f", "3:", "-r", "+"]),
+                       # every kind of bound and fallback -M takes: nothing of a line may be held back while its fate is open
+                       ("nodelim", ["-M", "1", "-d", "-", "-f", "1:2", "--fallback-oob", "X"]),
+                       ("delims", ["-M", "1", "-d", "-", "-f", "{1:3=x}|{5}", "-j"]),
+                       ("tail", ["-M", "1", "-d", "-", "-f", "1:2=F,4=G", "--fallback-oob", "H", "-z"]),
+                       ("head", ["-M", "1", "-d", "-", "-f", "a{1:2}b", "--fallback-oob", ""])):
         plans.append(("-M, one line, %s" % kind, argv, [(n, lambda n=n, kind=kind: one_line(n, kind)) for n in sizes]))
     rec = b"alpha-beta-gamma\n"
     plans.append(("-f fast lane, records", ["-d", "-", "-f", "2"], [(k, lambda k=k: rec * k) for k in recs]))
